@@ -348,13 +348,24 @@ impl Session<'_> {
     /// If you want to deserialize the value as a specific type, use [`remove`][Self::remove] instead.
     pub async fn remove_raw(&mut self, key: &str) -> Result<Option<Value>, LoadError> {
         use ServerState::*;
-        match force_load_mut(self).await? {
+        let server_state = force_load_mut(self).await?;
+        match server_state {
             MarkedForDeletion => {
                 tracing::debug!(session.key = %key, "Tried to delete a server-side value on a session marked for deletion.");
                 Ok(None)
             }
             DoesNotExist => Ok(None),
-            Unchanged { state, .. } | Changed { state } => Ok(state.remove(key)),
+            Unchanged { state, .. } => {
+                let Some(value) = state.remove(key) else {
+                    return Ok(None);
+                };
+                // The state has been modified: it must be marked as changed,
+                // otherwise the removal will never be persisted by `sync`.
+                let state = std::mem::take(state);
+                *server_state = Changed { state };
+                Ok(Some(value))
+            }
+            Changed { state } => Ok(state.remove(key)),
         }
     }
 
